@@ -13,7 +13,14 @@ from .. import strategies as S
 
 PROPERTY = "C03"
 LEVEL = "exploration"
-K_TOL = 1024.0
+K_TOL = 1024.0       # |dt| > P
+K_SMALL = 128.0      # |dt| <= P  (measured: error/(delta_cond+eps|x|) <= 14 there, <= 231 up to 1e3 P)
+
+
+def k_of(dtP):
+    return K_SMALL if abs(dtP) <= 1.0 else K_TOL
+
+
 EPS = 2.0 ** -52
 KEY_HYP = "C03-hyperbolic-solver"
 KEY_HYP_ACC = "C03-hyperbolic-bisection-accuracy"
@@ -267,6 +274,7 @@ def judge(ctx, c, bodies, what, extra=None):
     """Accuracy assertion shared by all entry points.  bodies: list of (name, got6, refr, refv, tpos, tvel) with
     tpos/tvel the allowed error norms (already containing K).  Returns "asserted" | "loose" | "excluded"."""
     from ..oracles import c03_kepler_mp as KM
+    K_TOL = k_of(c["dtP"])
     worst = 0.0
     bad = None
     loose = False
@@ -290,14 +298,15 @@ def judge(ctx, c, bodies, what, extra=None):
     if known and not c.get("w512") and ctx.finding_open(KEY_HYP_ACC) and not loose:
         # order-unity errors repaired, bisection fallback still less accurate than K: assert K*K_ACC
         ctx.stat_max("known_region_err_over_unit_tol", worst)
-        if worst <= K_TOL * K_ACC:
+        if worst <= 1024.0 * K_ACC:
             if bad is not None:
                 ctx.excluded(KEY_HYP_ACC)
                 ctx.cls("known_region")
                 return "excluded"
             return "asserted"
     if not loose:
-        ctx.stat_max("err_over_unit_tol_hyp" if c["hyp"] else "err_over_unit_tol_ell", worst)
+        ctx.stat_max("err_over_unit_tol_%s_%s" % ("hyp" if c["hyp"] else "ell", "dt<=P" if abs(c["dtP"]) <= 1 else "dt>P"),
+                     worst)
     if bad is not None:
         bad["ratio"] = worst
         if extra:
@@ -337,7 +346,8 @@ def run_direct(c, ctx):
     refr, refv, dpos, dvel = KM.propagate_cond(r0, v0, mu, dt)
     xs = max(math.sqrt(sum(x * x for x in r0)), KM.norm(refr))
     vs = max(math.sqrt(sum(x * x for x in v0)), KM.norm(refv))
-    res = judge(ctx, c, [("state", val, refr, refv, K_TOL * (dpos + EPS * xs), K_TOL * (dvel + EPS * vs))],
+    K = k_of(c["dtP"])
+    res = judge(ctx, c, [("state", val, refr, refv, K * (dpos + EPS * xs), K * (dvel + EPS * vs))],
                 "reb_whfast_kepler_solver", extra=dict(r0=r0, v0=v0, mu=mu, dt=dt, e=e))
     if nt and res == "asserted":
         ctx.nontrivial()
@@ -516,6 +526,7 @@ def run_step(c, ctx):
         com_v = [(mm0 * mpf(star[3 + k]) + mm1 * mpf(plan[3 + k])) / mM for k in range(3)]
         mdt = mpf(dt)
         n3 = lambda v: math.sqrt(sum(float(x) ** 2 for x in v))
+        K_TOL = k_of(o["dtP"])            # the Kepler sub-steps of a DKD scheme are shorter still: same K (not smaller)
         if nsub == 1:
             refr, refv, dpos, dvel = KM.propagate_cond(rel_r, rel_v, mum, mdt)
             xs = max(n3(rel_r), n3(refr))
